@@ -140,7 +140,7 @@ class C12(Check):
     lean_targets = ["drv_c12"]
     driver = "drv_c12"
     theorems = ["Pox.C12.port_guards", "Pox.C12.flood_excludes_ingress", "Pox.C12.counters_exact", "Pox.C12.actions_spec",
-                "Pox.C12.checksums_ok", "Pox.C12.rx_spec", "Pox.C12.rx_obj_spec", "Pox.C12.outputs_only", "Pox.C12.port_mod_spec",
+                "Pox.C12.checksums_ok", "Pox.C12.rx_spec", "Pox.C12.rx_obj_spec", "Pox.C12.outputs_only", "Pox.C12.buffers_spec", "Pox.C12.port_mod_spec",
                 "Pox.C12.enqueue_d7_defect", "Pox.C12.table_recount_d8_defect", "Pox.C12.vlan_pcp_c121_defect", "Pox.C12.strip_vlan_c122_defect"]
     _SW = "pox/datapaths/switch.py"
     anchors = [("pox/datapaths/switch.py", "SoftwareSwitchBase." + n) for n in (
@@ -162,7 +162,7 @@ class C12(Check):
     trusted_base = ["model Model/Actions.lean hand-written from switch.py (rx_packet, _lookup_packet, _output_packet, _process_actions_for_packet, _action_*, "
                     "_rx_port_mod, _set_port_config_bit); tied by this correspondence run",
                     "packet models of C14 (Model/PacketHdr.lean, Checksum.lean)", "harness/swnet.py byte-level switch node"]
-    assumptions = ["single-threaded datapath", "packet-buffer pool never full during a case (max_buffers=4096): packet-ins are truncated to max_len/miss_send_len",
+    assumptions = ["single-threaded datapath", "packet buffers are only counted (max_buffers minus packet-ins sent; nothing is released during a case — ids and release are C18)",
                    "flow entries match on in_port or on everything; entries never output to OFPP_TABLE (OpenFlow 1.0 restricts TABLE to packet-out)",
                    "frames are at least 14 bytes and stay inside the classes modelled by C14 (no LLC/IPv6/LLDP/MPLS/EAPOL, no DHCP/DNS/RIP/VXLAN UDP ports, no IGMP/GRE)",
                    "little-endian host (checksum model)"]
@@ -237,7 +237,7 @@ class C12(Check):
 
     def impl(self, case):
         of = self.of
-        node = self.swnet.SwitchNode(dpid=1, ports=case.get("nports", NPORTS), max_buffers=4096, miss_send_len=128)
+        node = self.swnet.SwitchNode(dpid=1, ports=case.get("nports", NPORTS), max_buffers=case.get("bufs", 4096), miss_send_len=128)
         sw = node.sw
         log = []
         sw.addListener(self.DpPacketOut, lambda e: log.append({"k": "frame", "port": e.port.port_no, "data": e.packet.pack().hex()}))
@@ -260,7 +260,7 @@ class C12(Check):
                 b = e[1]; t = b[1]
                 o = of._message_type_to_class[t](); o.unpack(b, 0)
                 if isinstance(o, of.ofp_packet_in):
-                    out.append({"k": "pin", "in_port": o.in_port, "reason": o.reason, "data": o.data.hex(), "total": o.total_len})
+                    out.append({"k": "pin", "in_port": o.in_port, "reason": o.reason, "data": o.data.hex(), "total": o.total_len, "buffered": o.buffer_id is not None})
                 elif isinstance(o, of.ofp_error): out.append({"k": "error", "type": o.type, "code": o.code})
                 elif isinstance(o, of.ofp_port_status): out.append({"k": "port_status", "port": o.desc.port_no, "config": o.desc.config, "state": o.desc.state})
                 else: out.append({"k": "other", "cls": type(o).__name__})
@@ -313,7 +313,7 @@ class C12(Check):
     def model_request(self, case):
         if case.get("oracle_only"): return None
         ports = [{"no": i, "hw": self.hw(i).hex(), "config": PC_NO_STP, "state": 0} for i in range(1, case.get("nports", NPORTS) + 1)]
-        return {"var": dict(self.variant), "ports": ports, "ops": case["ops"]}
+        return {"var": dict(self.variant), "ports": ports, "bufs": case.get("bufs", 4096), "ops": case["ops"]}
 
     def model_obs(self, case, resp):
         if "error" in resp: return resp
@@ -336,7 +336,7 @@ class C12(Check):
         for n, c, s in cfg:
             if n == ingress and c & PC_NO_PACKET_IN: return [], cur
         d = wire if wire is not None else cur
-        return [{"k": "pin", "in_port": ingress, "reason": 0, "data": d[:miss].hex(), "total": len(d)}], cur
+        return [{"k": "pin", "in_port": ingress, "reason": 0, "_full": d, "_limit": miss}], cur
 
     def _apply(self, acts, cur, ingress, cfg, rules, miss):
         """expected log of an action list and the frame after it (rules = None: inside a flow entry, TABLE is not followed).
@@ -349,8 +349,7 @@ class C12(Check):
             if k in ("output", "enqueue"):
                 port = a["port"]
                 if port == P_CONTROLLER:
-                    d = cur[:a["max_len"]] if k == "output" else cur
-                    out.append({"k": "pin", "in_port": ingress, "reason": 1, "data": d.hex(), "total": len(cur)})
+                    out.append({"k": "pin", "in_port": ingress, "reason": 1, "_full": cur, "_limit": a["max_len"] if k == "output" else None})
                 elif port == P_TABLE:
                     if rules is not None:
                         o, cur = self._table(rules, cfg, miss, cur, ingress, None); out += o
@@ -361,10 +360,16 @@ class C12(Check):
         return out, cur
 
     def oracle(self, case, obs):
+        if obs["exc"] == "RecursionError" and any(a["a"] in ("output", "enqueue") and a["port"] == P_TABLE for op in case["ops"] if op["op"] == "flow" for a in op["acts"]):
+            # a flow entry that outputs to OFPP_TABLE is outside OpenFlow 1.0 ("only ... for packet-out messages") and outside this
+            # property's assumptions: the lookup re-enters itself until Python's recursion limit.  Compared model-vs-code only
+            # (the model's nesting allowance runs out the same way); reported as candidate finding C12-5, not as a violation.
+            return None
         if obs["exc"] is not None:
             return "operation %d (%s) raised %s" % (len(obs["outs"]), case["ops"][len(obs["outs"])]["op"], obs["exc"])
         canon = bool(case.get("canon"))
         rules, miss, flags = [], 128, 0
+        free = case.get("bufs", 4096)          # packet buffers left
         tx = {}; rx = {}
         for i, (op, got) in enumerate(zip(case["ops"], obs["outs"])):
             cfg = [tuple(x) for x in obs["cfg"][i]]
@@ -418,6 +423,14 @@ class C12(Check):
                 else:
                     exp = []
                 where = "rx"
+            for o in exp:                                        # the pool, in log order: a buffer while one is free, then none
+                if o["k"] == "pin":
+                    full, limit = o.pop("_full"), o.pop("_limit")
+                    o["buffered"] = free > 0
+                    if free > 0: free -= 1
+                    o["data"] = (full[:limit] if (o["buffered"] and limit is not None) else full).hex(); o["total"] = len(full)
+            bg = [o.get("buffered") for o in got if o["k"] == "pin"]; be = [o.get("buffered") for o in exp if o["k"] == "pin"]
+            if len(bg) == len(be) and bg != be: return "op %d %s: packet-in buffer ids %s, with %d buffers free expected %s" % (i, where, bg, free + sum(be), be)
             # ports and kinds always; bytes when the frame is canonical (lengths/checksums valid, so recomputing them is the identity)
             if [(o["k"], o.get("port"), o.get("in_port"), o.get("reason")) for o in got] != [(o["k"], o.get("port"), o.get("in_port"), o.get("reason")) for o in exp]:
                 gp = [o.get("port") for o in got if o["k"] == "frame"]; ep = [o.get("port") for o in exp if o["k"] == "frame"]
@@ -487,6 +500,7 @@ class C12(Check):
         if "tx counters" in failure:
             if any(a["a"] == "set_vlan_pcp" and a["v"] > 7 for a in acts): return "action:set_vlan_pcp:out-of-range:struct.error"
             return "counters:tx"
+        if "packet-in buffer ids" in failure: return "buffers:packet-in-buffering"
         if "ingress port" in failure: return "ports:ingress-not-excluded"
         if "NO_RECV" in failure: return "ports:no-recv-processed"
         if "which is down" in failure: return "ports:emitted-on-guarded-port"
@@ -646,6 +660,7 @@ class C12(Check):
         tcp, tcpv, udp = frames[("tcp", False)], frames[("tcp", True)], frames[("udp", False)]
         out1 = lambda p: {"a": "output", "port": p, "max_len": 64}
         cases = []
+        small_frame = "66778899aabb00112233445588b50102"
         # (a) all 2^7 config-bit combinations on each of the three ports x FLOOD / ALL / explicit / IN_PORT / rx through a flooding flow
         for c in range(128):
             for target in (1, 2, 3):
@@ -728,6 +743,17 @@ class C12(Check):
                 can = len(acts) == 2          # what set_vlan_* should do to half a tag is nobody's specification: model-vs-code only
                 cases.append({"ops": [{"op": "pktout", "in_port": 1, "data": runt, "acts": acts}], "canon": can})
                 cases.append({"ops": [{"op": "flow", "in_port": None, "acts": acts}, {"op": "rx", "port": 1, "data": runt}], "canon": can})
+        # (j) OFPP_TABLE recursion bound: a flow entry that itself outputs to TABLE (model: nesting allowance exhausted; code: RecursionError)
+        cases.append({"ops": [{"op": "flow", "in_port": 1, "acts": [out1(2), out1(P_TABLE)]}, {"op": "rx", "port": 2, "data": small_frame}, {"op": "rx", "port": 1, "data": small_frame}]})
+        cases.append({"ops": [{"op": "flow", "in_port": None, "acts": [{"a": "set_vlan_vid", "v": 3}, {"a": "enqueue", "port": P_TABLE, "queue": 0}, out1(3)]},
+                              {"op": "pktout", "in_port": 2, "data": small_frame, "acts": [out1(P_TABLE)]}]})
+        # (k) the buffer pool runs out: CONTROLLER outputs (with max_len, enqueue without), table misses via TABLE and from the wire
+        for bufs in (0, 1, 2, 3):
+            ctl = lambda n: {"a": "output", "port": P_CONTROLLER, "max_len": n}
+            cases.append({"bufs": bufs, "ops": [{"op": "setconfig", "flags": 0, "miss": 16},
+                                               {"op": "pktout", "in_port": 1, "data": tcp, "acts": [ctl(20), out1(2), ctl(0), {"a": "set_nw_tos", "v": 8}, {"a": "enqueue", "port": P_CONTROLLER, "queue": 0}, out1(P_TABLE)]},
+                                               {"op": "rx", "port": 2, "data": udp}, {"op": "rx", "port": 3, "data": udp, "nopd": True},
+                                               {"op": "pktout", "in_port": 2, "data": udp, "acts": [ctl(65535), ctl(14)]}], "wf": True, "canon": True})
         # (f) the witnesses of Properties/C12.lean (`enqueue_d7_defect`, `table_recount_d8_defect`, `vlan_pcp_c121_defect`) replayed on
         #     the implementation: four ports, port 2 NO_FLOOD, port 3 NO_FWD, one entry for in_port 3, a 16-byte frame
         small = "66778899aabb00112233445588b50102"
@@ -772,6 +798,7 @@ class C12(Check):
                             "config": rng.randint(0, 2 ** 32 - 1), "mask": rng.choice([0x7f, 0xffffffff, rng.randint(0, 255), 1 << rng.randint(0, 31)])})
                 ops.append({"op": "pktout", "in_port": ing, "data": fr.hex(), "acts": self.g_actions(rng, rng.randint(1, 3), False)})
             case = {"ops": ops, "shape": shape}
+            if rng.random() < 0.15: case["bufs"] = rng.choice([0, 1, 2, 3])
             if can: case["canon"] = True
             if wf and not wild: case["wf"] = True
             yield case
